@@ -13,6 +13,7 @@
     carry any index) and `Nat` in the `Verify` loop (`for i, sig := range`).
 -/
 import Goloop.Base.Bytes
+import Goloop.Model.C24
 namespace Goloop.C29
 
 inductive Err where
@@ -63,5 +64,81 @@ def verify {σ : Type} (rec : σ → Option Bytes) (vals : List Bytes) (sigs : L
 
 /-- number of non-nil signature slots -/
 def present {σ : Type} (sigs : List (Option σ)) : Nat := (sigs.filter Option.isSome).length
+
+/-! ### btp/proofcontextmap.go: `proofContextMap.Verify` and the decision bytes -/
+
+/-- `rlpWriter.writeBytes` (`none` = nil slice → `f8 00`). -/
+def rlpBytes : Option Bytes → Bytes
+  | none => [0xf8, 0]
+  | some b =>
+    if b.length = 0 then [0x80]
+    else if b.length = 1 ∧ (b.headD 0).toNat < 0x80 then b
+    else if b.length ≤ 55 then UInt8.ofNat (0x80 + b.length) :: b
+    else
+      let sz := Goloop.C24.sizeToBytes b.length
+      UInt8.ofNat (0x80 + 55 + sz.length) :: (sz ++ b)
+
+/-- `rlpWriter.writeList` -/
+def rlpList (b : Bytes) : Bytes :=
+  if b.length = 0 then [0xc0]
+  else if b.length ≤ 55 then UInt8.ofNat (0xc0 + b.length) :: b
+  else
+    let sz := Goloop.C24.sizeToBytes b.length
+    UInt8.ofNat (0xc0 + 55 + sz.length) :: (sz ++ b)
+
+def rlpInt (v : Int) : Bytes := rlpBytes (some (Goloop.C24.int64ToBytes v))
+
+/-- `networkTypeSectionDecision` (btp/ntm/proof.go), built by `NewDecision`. -/
+structure Decision where
+  src : Option Bytes        -- SrcNetworkID
+  ntid : Int                -- DstType
+  height : Int
+  round : Int               -- int32
+  ntsHash : Option Bytes    -- NetworkTypeSectionHash
+
+/-- `d.Bytes()`: codec (RLP) list of the five exported fields in declaration order. -/
+def Decision.bytes (d : Decision) : Bytes :=
+  rlpList (rlpBytes d.src ++ rlpInt d.ntid ++ rlpInt d.height ++ rlpInt d.round ++ rlpBytes d.ntsHash)
+
+/-- a registered proof context: its module (hash + address scheme) and validators. -/
+structure Ctx where
+  uid : Nat
+  vals : List Bytes
+
+inductive MapErr where
+  | invalidLen
+  | newProof (i : Nat)
+  | verify (i : Nat) (e : Err)
+  deriving DecidableEq, Repr
+
+/-- the second loop of `proofContextMap.Verify`; `i` indexes `ntsdProves`.
+    `decode` = `pc.NewProofFromBytes`, `rec uid dbytes` = recovery for the hash (by module `uid`)
+    of the decision bytes `dbytes`. -/
+def verifyMapLoop {σ : Type} (pcm : Int → Option Ctx) (decode : Bytes → Option (List (Option σ)))
+    (rec : Nat → Bytes → σ → Option Bytes) (src : Option Bytes) (height round : Int)
+    (proofs : List Bytes) : List (Int × Option Bytes) → Nat → Option MapErr
+  | [], _ => none
+  | (ntid, h) :: rest, i =>
+    match pcm ntid with
+    | none => verifyMapLoop pcm decode rec src height round proofs rest i      -- `continue`
+    | some ctx =>
+      match decode (proofs.getD i []) with
+      | none => some (.newProof i)
+      | some sigs =>
+        let d : Decision := { src := src, ntid := ntid, height := height, round := round, ntsHash := h }
+        match verify (rec ctx.uid d.bytes) ctx.vals sigs with
+        | some e => some (.verify i e)
+        | none => verifyMapLoop pcm decode rec src height round proofs rest (i + 1)
+
+/-- digests whose network type has a registered context -/
+def registered (pcm : Int → Option Ctx) (digests : List (Int × Option Bytes)) : List (Int × Option Bytes) :=
+  digests.filter (fun p => (pcm p.1).isSome)
+
+/-- `proofContextMap.Verify(srcUID, height, round, bd, ntsdProves)`; `none` = nil error. -/
+def verifyMap {σ : Type} (pcm : Int → Option Ctx) (decode : Bytes → Option (List (Option σ)))
+    (rec : Nat → Bytes → σ → Option Bytes) (src : Option Bytes) (height round : Int)
+    (digests : List (Int × Option Bytes)) (proofs : List Bytes) : Option MapErr :=
+  if (registered pcm digests).length ≠ proofs.length then some .invalidLen
+  else verifyMapLoop pcm decode rec src height round proofs digests 0
 
 end Goloop.C29
